@@ -54,7 +54,7 @@ CSVROWS = [
     {"pattern": "UBER", "merchant": "Uber", "category": "Transport", "subcategory": "Ride", "tags": "{}|ride| |after"},
     {"pattern": "UBER EATS", "merchant": "UberEatsTag", "category": "", "subcategory": "", "tags": "Food| delivery "},
     {"pattern": "NETFLIX|UBER[amount>100]", "merchant": "BigTag", "category": "", "subcategory": "", "tags": "large"},
-    {"pattern": "AMAZON", "merchant": "Amazon", "category": "Shopping", "subcategory": "Online"},
+    {"pattern": "AMAZON", "merchant": "Amazon", "category": "Shopping", "subcategory": "Online", "tags": "{ source }|shop|{field.nope}|{  field.type}"},
     {"pattern": r"\d+", "merchant": "Numbered", "category": "Numbered", "subcategory": "", "tags": "a|num"},
     # a second categorising row with exactly the pattern text of the first one: it can never decide the category, but its tags count
     {"pattern": "NETFLIX", "merchant": "Netflix Again", "category": "Other", "subcategory": "Dup", "tags": "second|Dup2"},
@@ -117,6 +117,30 @@ def resolved_tags(i):
                 s.add(tag.lower())
         res.append(s)
     return res
+
+
+def csv_tags(i, t):
+    """Reference tags of CSV row i for one transaction: pipe-separated, lower-cased; `{expression}` entries take the expression's
+    value (blanks inside the braces ignored), and contribute nothing when empty, falsy or failing."""
+    from tally.expr_parser import evaluate_transaction, ExpressionError
+    out = set()
+    for x in CSVROWS[i].get("tags", "").split("|"):
+        x = x.strip()
+        if not x:
+            continue
+        if x.startswith("{") and x.endswith("}"):
+            e = x[1:-1].strip()
+            if not e:
+                continue
+            try:
+                v = evaluate_transaction(e, R.txn_dict(t))
+            except ExpressionError:
+                continue
+            if v and str(v).strip():
+                out.add(str(v).strip().lower())
+        else:
+            out.add(x.lower())
+    return out
 
 
 def _text(seq, force_cat=None, drop_tagonly=False):
@@ -225,8 +249,7 @@ def check_csv(case):
         n = 0
         for pos, i in enumerate(seq):
             if tr[pos][ti]:
-                # an empty dynamic tag `{}` / `{ }` contributes nothing (the alphabet holds no other dynamic CSV tags)
-                tg = {x.strip().lower() for x in CSVROWS[i].get("tags", "").split("|") if x.strip() and not re.fullmatch(r"\{\s*\}", x.strip())}
+                tg = csv_tags(i, t)
                 exp |= tg
                 n += 1 if tg else 0
                 if not CSVROWS[i]["category"]:
